@@ -12,7 +12,7 @@ CHECKS = {
                 technique="symbolic execution of rustc MIR into z3 (QF_UFLRA abstraction then QF_NRA), native replay of models", design='4/C01'),
     'C02': dict(text="Bounded model checking by solver: EMA, TrueRange, ATR, MACD, KeltnerChannel with the smoothing period a *symbolic* integer (every period 1..1e6 at once, incl. 1, "
                      "equal and inverted fast/slow), ChandelierExit for window periods n<=4 (5), all real inputs / independent bar fields, every prefix up to t=8 (12), against closed-form "
-                     "weighted sums; violations replayed natively.",
+                     "weighted sums; violations replayed natively. Plus Kani: EMA returns its first input bit for bit for every f64, and EMA(1) (alpha == 1 exactly) returns every finite input unchanged.",
                 technique="symbolic execution of rustc MIR into z3 with symbolic smoothing factor; polynomial normal form + NRA; native replay", design='4/C02'),
     'C03': dict(text="Bounded model checking by solver: RSI (symbolic period), FastStochastic (scalar/bar), SlowStochastic (compositional: EMA with symbolic period of the real "
                      "FastStochastic outputs), ROC, EfficiencyRatio, PPO (concrete period tuples incl. inverted), CCI, MFI, OBV equal their documented formulas for all positive real "
